@@ -884,19 +884,19 @@ func (in *Inst) binop(x *ssa.BinOp, st *State) Val {
 			e.note("bitwise and on wide operands is uninterpreted")
 		}
 	case token.OR:
+		generic := sApp("uf-or", a.T, b.T)
 		if ii.bits == 8 {
-			term = sApp("or8", a.T, b.T)
-		} else if sh, ok := x.X.(*ssa.BinOp); ok && sh.Op == token.SHL {
-			// (e << c) | f  with 0 <= f < 2^c is e<<c + f: the low c bits of the shifted value are zero
-			if c, ok := constInt(sh.Y); ok && c > 0 && c < 63 {
+			generic = sApp("or8", a.T, b.T)
+		}
+		term = generic
+		if sh, ok := x.X.(*ssa.BinOp); ok && sh.Op == token.SHL {
+			// (e << c) | f  with 0 <= f < 2^c is e<<c + f: the low c bits of the (wrapped) shifted value are zero
+			if c, ok := constInt(sh.Y); ok && c > 0 && c < int64(ii.bits)-1 {
 				lim := pow2(c).String()
-				term = sIte(sAnd(sApp("<=", "0", b.T), sApp("<", b.T, lim)), ii.wrapIte(sApp("+", a.T, b.T)), sApp("uf-or", a.T, b.T))
-			} else {
-				term = sApp("uf-or", a.T, b.T)
-				e.note("bitwise or on wide operands is uninterpreted")
+				term = sIte(sAnd(sApp("<=", "0", b.T), sApp("<", b.T, lim)), sApp("+", a.T, b.T), generic)
 			}
-		} else {
-			term = sApp("uf-or", a.T, b.T)
+		}
+		if ii.bits != 8 {
 			e.note("bitwise or on wide operands is uninterpreted")
 		}
 	case token.XOR:
